@@ -51,7 +51,11 @@ _real = {
     "chdir": os.chdir,
     "access": os.access,
     "fromfile": _np.fromfile,
+    "os_open": os.open, "os_close": os.close, "os_write": os.write, "os_read": os.read, "os_fsync": os.fsync,
+    "os_fdatasync": getattr(os, "fdatasync", os.fsync), "os_ftruncate": os.ftruncate, "os_lseek": os.lseek,
+    "os_fstat": os.fstat,
 }
+FD_BASE = 1 << 20   # simulated descriptors live far above anything the real OS hands out
 
 _FS = None  # the installed SimFS (module global; one simulated disk per process at a time)
 
@@ -92,7 +96,17 @@ class SimRaw(io.RawIOBase):
         return True
 
     def fileno(self):
-        raise io.UnsupportedOperation("SimFS streams have no file descriptor")
+        """a simulated descriptor (far above real ones) understood by the patched os.fsync / os.write / os.fstat ...;
+        handing it to a real system call fails with EBADF, which is the honest answer"""
+        if self.closed:
+            raise ValueError("I/O operation on closed file")
+        fd = getattr(self, "fd", None)
+        if fd is None:
+            fd = self.fs._next_fd
+            self.fs._next_fd += 1
+            self.fs.fds[fd] = self
+            self.fd = fd
+        return fd
 
     def isatty(self):
         return False
@@ -200,6 +214,9 @@ class SimRaw(io.RawIOBase):
                 self.fs._prim("close", self.path, None, handle=self)
         finally:
             self.fs.open_handles.discard(self)
+            fd = getattr(self, "fd", None)
+            if fd is not None:
+                self.fs.fds.pop(fd, None)
             super().close()
 
 
@@ -277,6 +294,75 @@ class SimFS:
         self.prims_total = 0
         self.max_open = 0
         self.foreign_touched = set()
+        self.fds = {}
+        self._next_fd = FD_BASE
+
+    # ----- low-level descriptor API (os.open / os.fdopen / os.write / os.fsync ...) -----
+    def os_open(self, path, flags):
+        acc = flags & (os.O_RDONLY | os.O_WRONLY | os.O_RDWR)
+        reading = acc in (os.O_RDONLY, os.O_RDWR)
+        writing = acc in (os.O_WRONLY, os.O_RDWR)
+        self._prim("open", path, None)
+        if self.handle_budget is not None and len(self.open_handles) >= self.handle_budget:
+            self.fired["emfile_budget"] += 1
+            self._note_fault("emfile_budget")
+            raise OSError(errno.EMFILE, "Too many open files (simulated)", path)
+        node = self.nodes.get(path)
+        parent = os.path.dirname(path)
+        if node is not None and node.kind == "d":
+            if writing:
+                raise IsADirectoryError(errno.EISDIR, "Is a directory", path)
+        if node is None:
+            if not flags & os.O_CREAT:
+                raise FileNotFoundError(errno.ENOENT, "No such file or directory", path)
+            pn = self.nodes.get(parent)
+            if pn is None or pn.kind != "d":
+                raise FileNotFoundError(errno.ENOENT, "No such file or directory", path)
+            if parent in self.readonly_dirs:
+                self.fired["readonly_dir"] += 1
+                self._note_fault("readonly_dir")
+                raise PermissionError(errno.EACCES, "Permission denied (simulated)", path)
+            node = self._new_node("f")
+            self.nodes[path] = node
+        elif flags & os.O_CREAT and flags & os.O_EXCL:
+            raise FileExistsError(errno.EEXIST, "File exists", path)
+        if writing and flags & os.O_TRUNC:
+            del node.data[:]
+        self.tick += 1
+        node.mtime = self.tick
+        raw = SimRaw(self, path, node, reading, writing, bool(flags & os.O_APPEND), "r+b" if (reading and writing) else ("wb" if writing else "rb"))
+        self.open_handles.add(raw)
+        self.max_open = max(self.max_open, len(self.open_handles))
+        fd = self._next_fd
+        self._next_fd += 1
+        self.fds[fd] = raw
+        raw.fd = fd
+        return fd
+
+    def fd_raw(self, fd):
+        raw = self.fds.get(fd)
+        if raw is None or raw.closed:
+            raise OSError(errno.EBADF, "Bad file descriptor")
+        return raw
+
+    def fd_stream(self, fd, mode, buffering, encoding, errors, newline):
+        """builtins.open(fd) / os.fdopen(fd): wrap the descriptor's raw stream (no truncation happens here)"""
+        raw = self.fd_raw(fd)
+        binary = "b" in mode
+        if buffering == 0:
+            return raw
+        bs = self.bufsize if buffering in (-1, 1) else buffering
+        if raw._r and raw._w:
+            buf = io.BufferedRandom(raw, bs)
+        elif raw._w:
+            buf = io.BufferedWriter(raw, bs)
+        else:
+            buf = io.BufferedReader(raw, bs)
+        if binary:
+            return buf
+        txt = io.TextIOWrapper(buf, encoding, errors, newline, buffering == 1)
+        txt.mode = mode
+        return txt
 
     # ----- raw namespace helpers (used by the harness and by foreign actors) -----
     def _new_node(self, kind):
@@ -663,8 +749,29 @@ def _is_write_mode(mode):
 
 def _p_open(file, mode="r", buffering=-1, encoding=None, errors=None, newline=None, closefd=True, opener=None):
     fs = _FS
+    if fs is not None and isinstance(file, int) and file in fs.fds:
+        return fs.fd_stream(file, mode, buffering, encoding, errors, newline)
     if fs is not None:
         p = fs.resolve(file)
+        if p is not None and opener is not None:
+            # open(path, mode, opener=...) as tempfile does: the opener returns a descriptor (ours if it went through
+            # the patched os.open), which is then wrapped like any other
+            flags = os.O_RDONLY
+            if "+" in mode:
+                flags = os.O_RDWR
+            elif any(c in mode for c in "wxa"):
+                flags = os.O_WRONLY
+            if "w" in mode:
+                flags |= os.O_CREAT | os.O_TRUNC
+            if "x" in mode:
+                flags |= os.O_CREAT | os.O_EXCL
+            if "a" in mode:
+                flags |= os.O_CREAT | os.O_APPEND
+            fd = opener(file, flags)
+            if fd in fs.fds:
+                stream = fs.fd_stream(fd, mode, buffering, encoding, errors, newline)
+                return stream
+            return _real["open"](fd, mode, buffering, encoding, errors, newline, closefd)
         if p is not None:
             return fs.open(p, mode, buffering, encoding, errors, newline)
         if fs.active and isinstance(mode, str) and _is_write_mode(mode) and not isinstance(file, int):
@@ -781,6 +888,77 @@ def _p_access(path, mode, *a, **kw):
     return _real["access"](path, mode, *a, **kw)
 
 
+def _p_os_open(path, flags, mode=0o777, *a, **kw):
+    fs = _FS
+    if fs is not None:
+        p = fs.resolve(path)
+        if p is not None:
+            return fs.os_open(p, flags)
+        if fs.active and flags & (os.O_WRONLY | os.O_RDWR | os.O_CREAT):
+            fs.escaped_writes.append(str(path))
+            fs.fired["escaped_write"] += 1
+    return _real["os_open"](path, flags, mode, *a, **kw)
+
+
+def _fd(fd):
+    fs = _FS
+    return fs.fds.get(fd) if fs is not None and isinstance(fd, int) and fd >= FD_BASE else None
+
+
+def _p_os_close(fd):
+    raw = _fd(fd)
+    if raw is not None:
+        return raw.close()
+    return _real["os_close"](fd)
+
+
+def _p_os_write(fd, data):
+    raw = _fd(fd)
+    if raw is not None:
+        return raw.write(data)
+    return _real["os_write"](fd, data)
+
+
+def _p_os_read(fd, n):
+    raw = _fd(fd)
+    if raw is not None:
+        b = bytearray(n)
+        k = raw.readinto(b)
+        return bytes(b[:k])
+    return _real["os_read"](fd, n)
+
+
+def _p_os_fsync(fd):
+    raw = _fd(fd)
+    if raw is not None:
+        if raw.closed:
+            raise OSError(errno.EBADF, "Bad file descriptor")
+        return None   # data reach the inode at write time; there is nothing further to make durable
+    return _real["os_fsync"](fd)
+
+
+def _p_os_ftruncate(fd, length):
+    raw = _fd(fd)
+    if raw is not None:
+        raw.truncate(length)
+        return None
+    return _real["os_ftruncate"](fd, length)
+
+
+def _p_os_lseek(fd, pos, how):
+    raw = _fd(fd)
+    if raw is not None:
+        return raw.seek(pos, how)
+    return _real["os_lseek"](fd, pos, how)
+
+
+def _p_os_fstat(fd):
+    raw = _fd(fd)
+    if raw is not None:
+        return raw.fs.stat(raw.path)
+    return _real["os_fstat"](fd)
+
+
 def is_sim_stream(f):
     return isinstance(f, SimRaw) or isinstance(getattr(f, "raw", None), SimRaw)
 
@@ -839,6 +1017,16 @@ def install_patches():
     os.getcwd = _p_getcwd
     os.chdir = _p_chdir
     os.access = _p_access
+    os.open = _p_os_open
+    os.close = _p_os_close
+    os.write = _p_os_write
+    os.read = _p_os_read
+    os.fsync = _p_os_fsync
+    if hasattr(os, "fdatasync"):
+        os.fdatasync = _p_os_fsync
+    os.ftruncate = _p_os_ftruncate
+    os.lseek = _p_os_lseek
+    os.fstat = _p_os_fstat
     _np.fromfile = _p_fromfile
     try:  # numpy caches io.open for np.loadtxt / np.savetxt
         import numpy.lib._datasource as ds
